@@ -30,7 +30,8 @@ Gids13 == {1, 3}
 Gids123 == {1, 2, 3}
 OpsN == {"N"}
 OpsNH == {"N", "H"}
-GeomsCover    == <<Mps3, Mpo2>>
+Mps2   == G("mps2",   "mps",  <<2, 3>>,       Chain(2))
+GeomsCover    == <<Mps2, Mpo2>>
 Gids1 == {1}
 GeomsSwap     == <<Mps4>>
 GeomsMpo      == <<Mpo3>>
